@@ -161,6 +161,8 @@ def run_case(stream, seed, ctx, params):
             L.add_like_cells(d, rng, chain_p=0.7, keys=['mat', 'rho', 'trcl', 'u'])
             if _cyclic(d):
                 return None
+        if rng.random() < 0.35:
+            G.round_mats(d, rng)       # material numbers such as 10, 100, 20 next to 1 and 2
         return run_deck(ctx, stream, d, random_options(rng), rng, npts=150, with_comp=True)
     # spelling stream ------------------------------------------------------------------
     d = G.build_flat_deck(rng, macro_p=0.0, ncells=rng.randint(3, 6), depth=rng.randint(2, 4), imp0_p=0.0, use_cc=False)
